@@ -99,6 +99,13 @@ STRENGTH = {
     'C16i': 'an exception / a reply on the delivery of a datagram for an SPI that is not (or no longer) in the table belongs to C16',
     'C18i': '`Cookie.tla` fill `churn`: the half-open IKE_SAs are what remains after one more was created (the later ones with a cookie) and the first one went on to completion',
     'C20i': 'failure / follow-up scenarios with opposite preference orders on the two peers and the follow-up exchanges started by the original responder (an IKE_SA rekey then changes PRF, integrity and key length)',
+    'C02j': 'scenario `forged_invalid_ke_downgrade`: the attacker answers message 1 with INVALID_KE_PAYLOAD naming the weaker common group and relays the rest; if both ends come up they must have agreed on the group of the attacker-free control run (three group lists, PSK and RSA)',
+    'C13j': 'scenario `crash_after_ike_rekey` (`IkeTimers.tla` CrashBound from an IKE_SA that never received anything): IKE_SA rekey by either endpoint, the peer dies before anything travels on the successor, which must be probed and gone with its kernel SAs within DPD interval + budget; a timer that is never due is a reported mismatch of the timer replay, not a crash of it',
+    'C14j': '`create_child_sa` is also driven with selectors negotiated as RANGES that are no networks (the two addresses around the middle of each network of `XfrmWire.tla` ChildPairs): the smallest covering network (`Selectors.tla` ToNetwork) is that network, so the request octets must be the same',
+    'C15j': 'scenario `random_indices`: three protect entries without explicit index (two of them differing in protocol / IPsec protocol / mode only): pairwise different indices in the installed outbound policies, and the ACQUIRE with the second one\'s index is negotiated with the second entry; the harness no longer collapses the loader\'s index draws to one value',
+    'C17j': 'hostile kind `auth_odd_child_spi` at every moment of the legitimate session: an in-window CREATE_CHILD_SA request sealed with the legitimate peer\'s keys, acceptable in every respect except a CHILD_SA SPI of 0 / 3 / 5 / 8 octets',
+    'C18j': 'scenario `nonce_lengths`: nonces of 16, 17, 128, 255 and 256 octets over the threshold (COOKIE alone, not accepted with a nonce of another length, admitted with the right one)',
+    'C20j': 'failure scenarios with three or four damaged copies (flipped ICV octets, truncation) in front of every protected datagram, follow-ups started by either peer',
     'C19f': '`Config.tla`: secrets with blanks / tabs / line ends at either end and of the other letter case; float values (`.inf`, `.nan`, `1.5`); the cross-key rule "not all algorithm lists empty"',
 }
 ANTICIPATED = {'C13c', 'C18c', 'C09d', 'C16d', 'C18d'}
@@ -106,7 +113,7 @@ AFTER_REPORT = {'C01e'}       # strengthened after reading the agent's report, b
 
 
 def main():
-    rows, counts = [], {1: [0, 0], 2: [0, 0], 3: [0, 0], 4: [0, 0], 5: [0, 0], 6: [0, 0], 7: [0, 0], 8: [0, 0], 9: [0, 0]}
+    rows, counts = [], {1: [0, 0], 2: [0, 0], 3: [0, 0], 4: [0, 0], 5: [0, 0], 6: [0, 0], 7: [0, 0], 8: [0, 0], 9: [0, 0], 10: [0, 0]}
     for p in sorted(glob.glob(os.path.join(VERIF, 'seeded', '*', 'meta.json'))):
         m = json.load(open(p))
         k = m['name']
@@ -119,8 +126,8 @@ def main():
         rows.append((k, m['change'], m['needs_to_manifest'], 'yes' if outright else ('anticipated' if k in ANTICIPATED else 'no'), STRENGTH.get(k, '-') if not outright else '-'))
     total = sum(c[1] for c in counts.values())
     out = ['### 0.7 Seeded changes: which check catches which change\n',
-           f'{total} changes were written by fresh sub-agents (one per property and round) that saw **only the text of the property** and a scratch worktree of `/repo` -',
-           'nothing from `/verif`; rounds 2 to 9 were additionally told which ideas the earlier rounds had used and to stay away from them.  Each change compiles, leaves the',
+           f'{total} changes were written by fresh sub-agents (one per property and round; round 10 covered the ten properties with a miss in round 9 plus C17) that saw **only the text of the property** and a scratch worktree of `/repo` -',
+           'nothing from `/verif`; rounds 2 to 10 were additionally told which ideas the earlier rounds had used and to stay away from them.  Each change compiles, leaves the',
            'repository\'s test suite at 176 passed / 11 failed, comes with a demonstration (`demo_seed.py`: PASS on the original, FAIL on the change) and was confirmed by',
            '`harness/seedeval.py` in a fresh worktree before the check of its property was run on it (`VERIF_REPO=<worktree>`, quick tier).  Patch, demonstration and',
            '`meta.json` (what it needs to manifest, what was run, the outcome before and after strengthening) are in `/verif/seeded/<id>/`; none of them was ever applied to `/repo`.\n',
